@@ -92,7 +92,11 @@ NoScopeCases == {[kind |-> "name-out-of-scope", tag |-> t, name |-> NameOfTag(t)
 \* as "Unlocked" and "Locked", 9 is not.
 VendorTypeCases == {[kind |-> "vendortype", tag |-> 5505040 + i, name |-> <<"State", "ObjectType", "VendorKind">>[i], value |-> v,
                      vname |-> IF v = 1 THEN "Unlocked" ELSE IF v = 2 THEN "Locked" ELSE ""] : i \in 1..3, v \in {1, 2, 9}}
-Cases == TagCases \cup EnumCases \cup MaskCases \cup MaskHighCases \cup MaskPairCases \cup NameCases \cup NoScopeCases \cup VendorTypeCases
+\* a value of one enumeration carried under the tag of another (a member of type Certificate Type declared with the tag Key Format
+\* Type, ...): the writer names the value in the enumeration of its TYPE, and so does the reader - X_509 is 1 as a certificate type and 5
+\* as a key format, CTR is 5 as a DRBG algorithm and 6 as a block cipher mode. (case number k of the driver's table; value: what must come back)
+CrossCases == {[kind |-> "crossenum", tag |-> 0, name |-> "", value |-> k, vname |-> ""] : k \in 1..3}
+Cases == CrossCases \cup TagCases \cup EnumCases \cup MaskCases \cup MaskHighCases \cup MaskPairCases \cup NameCases \cup NoScopeCases \cup VendorTypeCases
 
 Init == c \in Cases
 Next == UNCHANGED c
